@@ -89,3 +89,27 @@ impl RequestId {
         RequestId(rand::random())
     }
 }
+
+/// Verification hooks (only with `--cfg libp2p_verif`): thin access to crate-private items.
+#[cfg(libp2p_verif)]
+pub mod verif {
+    use std::{future::Future, io, time::Duration};
+
+    use futures::io::{AsyncRead, AsyncWrite};
+
+    pub use crate::behaviour::rate_limiter::RateLimiter;
+
+    /// The circuit relay copy loop (`copy_future::CopyFuture`).
+    pub fn copy_future<S, D>(
+        src: S,
+        dst: D,
+        max_circuit_duration: Duration,
+        max_circuit_bytes: u64,
+    ) -> impl Future<Output = io::Result<()>>
+    where
+        S: AsyncRead + AsyncWrite + Unpin,
+        D: AsyncRead + AsyncWrite + Unpin,
+    {
+        crate::copy_future::CopyFuture::new(src, dst, max_circuit_duration, max_circuit_bytes)
+    }
+}
